@@ -407,6 +407,11 @@ func (ex *Exec) siteHooksAfter(fr *Frame, st *State, instr ssa.Instruction, name
 	}
 	ctx := &EvalCtx{ex: ex, st: st, old: ex.entry, env: env, oldEnv: ex.entryEnv, pkg: ex.contract.Pkg, fnPos: ex.fn.Pos()}
 	for _, s := range sites {
+		for _, g := range s.Ghosts {
+			if err := ctx.applyGhost(g); err != nil {
+				ex.contractProblem("%s: at call %s ghostset %s: %v", ex.contract.Pos, s.Callee, g.Text, err)
+			}
+		}
 		for _, a := range s.AssumePost {
 			c, err := ctx.evalBool(a.Expr)
 			if err != nil {
